@@ -277,3 +277,139 @@ def rt_nodes(r):
 
 def rt_size(r):
     return sum(1 for _ in rt_nodes(r))
+
+
+# ---------------------------------------------------------------- parsing the canonical text (results of the Node driver)
+class _P:
+    def __init__(self, t):
+        self.t, self.i = t, 0
+
+    def peek(self):
+        return self.t[self.i] if self.i < len(self.t) else ""
+
+    def expect(self, c):
+        if self.t[self.i:self.i + len(c)] != c:
+            raise ValueError("canon: expected %r at %d in %r" % (c, self.i, self.t[:200]))
+        self.i += len(c)
+
+    def string(self):
+        self.expect('"')
+        out = []
+        while self.t[self.i] != '"':
+            if self.t[self.i] == "\\":
+                self.i += 1
+            out.append(self.t[self.i])
+            self.i += 1
+        self.i += 1
+        return "".join(out)
+
+    def list(self, close, item):
+        out = []
+        if self.peek() == close:
+            self.i += 1
+            return out
+        while True:
+            out.append(item())
+            if self.peek() == ",":
+                self.i += 1
+                continue
+            self.expect(close)
+            return out
+
+    def word(self, chars):
+        j = self.i
+        while self.i < len(self.t) and self.t[self.i] in chars:
+            self.i += 1
+        return self.t[j:self.i]
+
+    def val(self):
+        c = self.t[self.i]
+        self.i += 1
+        if c == "u": return U
+        if c == "n": return NUL
+        if c == "t": return B(True)
+        if c == "f": return B(False)
+        if c == "#":
+            s = self.word("-+0123456789.eInfinityNa")
+            if s == "NaN": return NAN
+            if s == "-0": return NEGZ
+            if s == "Infinity": return INF(False)
+            if s == "-Infinity": return INF(True)
+            try:
+                return I(int(s))
+            except ValueError:
+                return DEC(s)
+        if c == '"':
+            self.i -= 1
+            return S(self.string())
+        if c == "B": return BIG(int(self.word("-0123456789")))
+        if c == "S": return SYM
+        if c == "F": return FUN
+        if c == "D": return DATE(int(self.word("-0123456789")))
+        if c == "R": return REGEXP
+        if c == "[": return ARR(self.list("]", self.val))
+        if c == "{":
+            def kv():
+                k = self.string()
+                self.expect(":")
+                return (k, self.val())
+            return OBJ(self.list("}", kv))
+        if c == "M":
+            self.expect("[")
+            def kv2():
+                k = self.val()
+                self.expect(":")
+                return (k, self.val())
+            return MAP(self.list("]", kv2))
+        if c == "E":
+            self.expect("[")
+            return SET(self.list("]", self.val))
+        if c == "Y":
+            name = self.word("ABCDEFGHIJKLMNOPQRSTUVWXYZabcdefghijklmnopqrstuvwxyz0123456789")
+            self.expect("[")
+            return TYPED(name, [int(x) for x in self.list("]", lambda: self.word("-0123456789"))])
+        raise ValueError("canon: bad char %r at %d in %r" % (c, self.i - 1, self.t[:200]))
+
+    def err(self):
+        c = self.t[self.i]
+        self.i += 1
+        self.expect("(")
+        self.expect("[")
+        path = self.list("]", self.string)
+        self.expect(";")
+        if c == "e":
+            msg = self.string()
+            self.expect(";")
+            v = self.val()
+            self.expect(")")
+            return ("e", path, msg, v)
+        v = self.val()
+        self.expect(";")
+        self.expect("[")
+        inner = self.list("]", self.err)
+        self.expect(")")
+        return ("U", path, v, inner)
+
+
+def parse_canon_val(t):
+    p = _P(t)
+    v = p.val()
+    if p.i != len(t):
+        raise ValueError("canon: trailing input in %r" % t[:200])
+    return v
+
+
+def parse_canon_errs(t):
+    """'[e(..),U(..)]' -> list of error trees"""
+    p = _P(t)
+    p.expect("[")
+    out = p.list("]", p.err)
+    if p.i != len(t):
+        raise ValueError("canon: trailing input in %r" % t[:200])
+    return out
+
+
+def err_coq(e):
+    if e[0] == "e":
+        return "(ERegular %s %s %s)" % (coq_str(e[2]), coq_list(coq_str(s) for s in e[1]), val_coq(e[3]))
+    return "(EUnion %s %s %s)" % (coq_list(coq_str(s) for s in e[1]), val_coq(e[2]), coq_list(err_coq(x) for x in e[3]))
